@@ -298,7 +298,7 @@ static outcome check_pair(const pcase& c, const std::string& prop) {
     for (std::size_t i = 0; i < c.a.size(); ++i) {
       if (c.a[i].t == TEXT) {
         anytext = true;
-        bound_a += std::min<std::size_t>(c.a[i].text.size(), MAXLEN) + 3;
+        bound_a += MAXLEN + 3;  // the statement's bound: at most maxlen bytes plus the three-byte terminator
         if (near_text_limit(c.a[i]) || near_text_limit(c.b[i])) nearlimit = true;
         const auto &x = c.a[i].text, &y = c.b[i].text;
         if (x != y && (is_prefix(x, y) || is_prefix(y, x))) proper_prefix_texts = true;
@@ -863,9 +863,9 @@ int main(int argc, char** argv) {
           } else if (oc != 0 && (is_prefix(encs[i], encs[j]) || is_prefix(encs[j], encs[i]))) {
             ok = false;
             msg = "one text encoding is a proper prefix of the other";
-          } else if (encs[i].size() > texts[i].size() + 3) {
+          } else if (encs[i].size() > MAXLEN + 3) {
             ok = false;
-            msg = "text encoding longer than len+3";
+            msg = "text encoding longer than maxlen+3";
           }
         }
         if (!ok) {
